@@ -3,7 +3,7 @@
 from __future__ import annotations
 
 from .. import absint
-from ..driver import Driver, Facts, atom, dyn_signature, integer_atom, rec_signature, static_signature
+from ..driver import Driver, Facts, LoopNotCounting, atom, dyn_signature, integer_atom, rec_signature, static_signature
 from ..index import AnalysisError
 from ..poly import Rat
 from ..values import Obj, Raised, to_rat
@@ -51,7 +51,11 @@ def _strategies(ctx, slices=(1, 2, 3, 4), with_plain=True):
         cases.append((f"reversible, {k} slice{'s' if k > 1 else ''}", dict(method="reversible", num_checkpoints_reversible=k - 1), k))
     ref = None
     for label, grad, k in cases:
-        d, arr, r = _run(ctx, grad, k)
+        try:
+            d, arr, r = _run(ctx, grad, k)
+        except LoopNotCounting as e:
+            ctx.ob("R5.2", f"run_fdtd[{label}]:loop-bound", False, "every run loop continues while the step counter is below a step count (time_steps_total or a slice boundary) — the same count that sizes the detector rows and the reversible slices; a test in other units (physical time, rounded differently) lets the strategies stop at different steps", str(e)[:200], "step < step count")
+            continue
         if isinstance(r, Raised):
             ctx.ob("R5.1", f"run_fdtd[{label}]", False, "the run completes", str(r), "final state")
             continue
